@@ -680,6 +680,10 @@ def eta_expand_constructors(ft, ads):
 
 
 def adapt_function(text, where, subs, report):
+    m0 = re.match(r"\s*pub\s*\(\s*(super|crate|in [^)]*)\s*\)", text)
+    if m0:
+        text = text[:m0.start()] + "pub" + text[m0.end():]
+        report["adaptations"].append({"rule": "D18", "what": "restricted visibility `pub(..)` widened to `pub` in the single-file unit"})
     ft = FnText(text, where)
     ft.relex()
     ads = report["adaptations"]
